@@ -6,6 +6,9 @@
 (*   Build   n members  denied                                               *)
 (*   Rebuilt n members  missing     (filter rebuilt from a table file by     *)
 (*                                   recovery: lookups of stored keys)       *)
+(*   Held    n members  denied      (every filter the level manager holds,   *)
+(*                                   after flush / compaction / recovery,    *)
+(*                                   asked for every entry of its table)     *)
 (* The contract: denied = 0 and missing = 0, for every n >= 1.               *)
 (***************************************************************************)
 EXTENDS Integers, Sequences, TLC, Json, IOUtils
